@@ -3,7 +3,7 @@
    and terminates is C04; the exit status is decided by main.rs from the verdict, see Cli.wellformed_exit, and is checked on the
    real binary by the correspondence run). *)
 From Coq Require Import List ZArith Lia Bool Arith.
-Require Import HP1 Cao1 Cao5 Cao6 Rooms Spec Valid Node NoPanic WfCheck RoomThms RoomSites WfPres Solve.
+Require Import HP1 Cao1 Cao5 Cao6 Rooms Spec Valid Node NoPanic WfCheck RoomThms RoomSites WfPres Solve NoOverflow.
 Require EngP2.
 Require Json SimpleRead SimpleValid.
 Import ListNotations.
@@ -110,8 +110,31 @@ Proof.
   apply (C10_node _ _ esize shrinkf rooms nd s (SimpleValid.accepted_valid data ps cs Hr Hc Hu) FS Hwf).
 Qed.
 
-Check C10_document_valid. Check C10_document_node. Check C10_float_sane_checker. Check C10_node. Check C10_node_class. Check C10_root_wf. Check C10_children_wf. Check C10_search. Check C10_no_failure. Check C10_never_stuck. Check C10_node_noroom.
+(* with the size bound SizeOK ((n + 2) * WEIGHT_OFFSET <= i32::MAX, decidable: size_okb) the matching routine never reports Overflow
+   (HP7: the labels stay within (n + 1) * WEIGHT_OFFSET), so every subproblem the search generates is ANSWERED and no worker dies *)
+Theorem C10_node_total : forall courses parts esize shrinkf rooms nd,
+  Valid courses parts -> FloatSane courses esize shrinkf rooms -> SizeOK courses parts -> Wf2 courses nd ->
+  exists r, run_full courses parts esize shrinkf rooms nd = Val r.
+Proof.
+  intros courses parts esize shrinkf rooms nd V FS Hs Hwf.
+  destruct (run_full courses parts esize shrinkf rooms nd) as [r|site|] eqn:E; [eauto| |].
+  - exfalso. apply (C10_node courses parts esize shrinkf rooms nd site V FS Hwf E).
+  - exfalso. apply (run_full_no_overflow courses parts V esize shrinkf rooms nd Hs E).
+Qed.
+Theorem C10_total : forall courses parts esize shrinkf rooms smin smax k st,
+  Valid courses parts -> FloatSane courses esize shrinkf rooms -> SizeOK courses parts ->
+  SReach courses parts esize shrinkf rooms smin smax k st -> EngP2.failed node assignment st = [].
+Proof.
+  intros courses parts esize shrinkf rooms smin smax k st V FS Hs. apply (C10_no_failure courses parts esize shrinkf rooms smin smax k st V FS).
+  intros nd. apply (run_full_no_overflow courses parts V esize shrinkf rooms nd Hs).
+Qed.
+Theorem C10_size_checker : forall courses parts, size_okb courses parts = true -> SizeOK courses parts.
+Proof. exact size_okb_spec. Qed.
+
+Check C10_node_total. Check C10_total. Check C10_size_checker. Check C10_document_valid. Check C10_document_node. Check C10_float_sane_checker. Check C10_node. Check C10_node_class. Check C10_root_wf. Check C10_children_wf. Check C10_search. Check C10_no_failure. Check C10_never_stuck. Check C10_node_noroom.
 Print Assumptions C10_node.
+Print Assumptions C10_node_total.
+Print Assumptions C10_total.
 Print Assumptions C10_document_valid.
 Print Assumptions C10_document_node.
 Print Assumptions C10_node_class.
